@@ -24,7 +24,7 @@ RULE = (
     "cases: glexsort key matrices (first the exhaustive family D x N in {1x1..6, 2x1..4, 3x1..3}, entries 0..2, all four "
     "graded/reverse settings; then random ones up to 4 x 400 with many equal degree sums), glexindex/bindex/monomial/"
     "cross_truncate argument tuples (dimensions<=4, bounds<=6, norms {0,.5,.8,1,2,inf} and ordered pairs, scalar and "
-    "per-dimension bounds); every case runs under every tie policy of the unstable-sort stand-in (stable, reversed, rotated, "
+    "per-dimension bounds; monomial also inside a block with other retain/sort options); every case runs under every tie policy of the unstable-sort stand-in (stable, reversed, rotated, "
     "k seeded permutations). Distinct non-trivial = distinct (case, policy) pairs whose keys contain at least one tie in the "
     "graded sum or lexicographic key (so that an unstable sort has a real choice), counted by the reference."
 )
